@@ -14,5 +14,6 @@ CONSTANTS
   EmitOneIn = 1
   Focus <- FocusAll
   BDev <- NoBDev
+  EmitSel = "all"
 INVARIANT Emit
 CHECK_DEADLOCK FALSE
